@@ -377,39 +377,92 @@ def rand_sre(rng, alpha, d):
     return ('case', sub())
 
 
-def tame_cs(c, ci):
-    """under case-insensitivity, complements/differences/intersections are an unspecified corner (SRFI 115: "character sets match
-    if any character in the set matches case-insensitively" vs chibi's complement of the folded set): keep only unions there"""
+def case_rel(c):
+    out = {c}
+    ch = chr(c)
+    for x in (ch.upper(), ch.lower()):
+        if len(x) == 1:
+            out.add(ord(x))
+    return out
+
+
+def cs_eval(c, ci, x, mode):
+    """is code point x in char set c under case flag ci?  mode = the reading of set algebra (~ - and) evaluated while w/nocase is in force:
+    0 fold the operands, then operate (chibi; the model's cs_in); 1 operate on the case-sensitive operands, then fold the result
+    (SRFI 115: "character sets match if any character they contain matches case-insensitively"); 2 fold the operands, operate, fold again"""
+    t = c[0]
+    if t == 'c':
+        return x == c[1] or (ci and c[1] in case_rel(x))
+    if t == 'r':
+        return c[1] <= x <= c[2] or (ci and any(c[1] <= y <= c[2] for y in case_rel(x)))
+    if t == 'any':
+        return True
+    if t == 'o':
+        return cs_eval(c[1], ci, x, mode) or cs_eval(c[2], ci, x, mode)
+    if t == 'i':
+        return cs_eval(c[1], True, x, mode)
+    if t == 'j':
+        return cs_eval(c[1], False, x, mode)
+
+    def op(f, y):
+        if t == '~':
+            return not cs_eval(c[1], f, y, mode)
+        if t == 'n':
+            return cs_eval(c[1], f, y, mode) and cs_eval(c[2], f, y, mode)
+        return cs_eval(c[1], f, y, mode) and not cs_eval(c[2], f, y, mode)
+    if not ci or mode == 0:
+        return op(ci, x)
+    return any(op(mode == 2, y) for y in case_rel(x))
+
+
+def tame_cs(c, ci, subj=None):
+    """Set algebra (complement, difference, intersection) evaluated while w/nocase is in force is the one unspecified corner: SRFI 115's
+    "character sets match if any character they contain matches case-insensitively" folds the RESULT, chibi folds the OPERANDS
+    ((w/nocase (~ #\a)) matches "a" under the first reading only).  Everything else stays compared: plain sets, ranges and unions under
+    w/nocase; set algebra with the flag off -- including operands that are themselves (w/nocase ..) sets and algebra re-enabled by a
+    nested w/case, where "w/case overrides any enclosing w/nocase" is explicit; and an algebra node under w/nocase on which all readings
+    agree for every subject character of the case (e.g. operands closed under case, or caseless characters).  Only a node on which the
+    readings differ on some subject character is rewritten to a union."""
     t = c[0]
     if t == 'i':
-        return ('i', tame_cs(c[1], True))
+        return ('i', tame_cs(c[1], True, subj))
     if t == 'j':
-        return ('j', tame_cs(c[1], False))
+        return ('j', tame_cs(c[1], False, subj))
     if t in ('c', 'r', 'any'):
         return c
+    if t in ('~', 'n', '-') and ci and subj is not None and \
+            all(cs_eval(c, True, x, 0) == cs_eval(c, True, x, 1) == cs_eval(c, True, x, 2) for x in subj):
+        return c
     if t == '~':
-        return tame_cs(c[1], ci) if ci else ('~', tame_cs(c[1], ci))
-    a, b = tame_cs(c[1], ci), tame_cs(c[2], ci)
+        return tame_cs(c[1], ci, subj) if ci else ('~', tame_cs(c[1], ci, subj))
+    a, b = tame_cs(c[1], ci, subj), tame_cs(c[2], ci, subj)
     return ('o', a, b) if ci else (t, a, b)
 
 
-def tame(r, ci=False):
+def tame(r, ci=False, subj=None):
     t = r[0]
     if t == 'chr':
-        return ('chr', tame_cs(r[1], ci))
+        return ('chr', tame_cs(r[1], ci, subj))
     if t in ('seq', 'or'):
-        return (t,) + tuple(tame(a, ci) for a in r[1:])
+        return (t,) + tuple(tame(a, ci, subj) for a in r[1:])
     if t in ('star', 'opt'):
-        return (t, r[1], tame(r[2], ci))
+        return (t, r[1], tame(r[2], ci, subj))
     if t in ('plus', 'sub', 'nocap', 'named', 'word'):
-        return (t, tame(r[1], ci))
+        return (t, tame(r[1], ci, subj))
     if t == 'nocase':
-        return (t, tame(r[1], True))
+        return (t, tame(r[1], True, subj))
     if t == 'case':
-        return (t, tame(r[1], False))
+        return (t, tame(r[1], False, subj))
     if t == 'rep':
-        return r[:5] + (tame(r[5], ci),)
+        return r[:5] + (tame(r[5], ci, subj),)
     return r
+
+
+def subj_of(strs):
+    out = set()
+    for s in strs:
+        out.update(s[0] if s and isinstance(s[0], tuple) else s)
+    return out
 
 
 def rand_strings(rng, alpha, n, maxlen):
@@ -644,7 +697,7 @@ def fold_stage(ctx, exe, d, cases, label):
     proved fold_spans (successive leftmost-longest matches, each in its true context inside the subject), for greedy SREs"""
     import time
     t0 = time.time()
-    cases = [(tame(r), strs) for r, strs in cases]
+    cases = [(tame(r, False, subj_of(strs)), strs) for r, strs in cases]
     reqs = ["G %s%s" % (proto(r), "".join(" | " + sfield(s) for s in strs)) for r, strs in cases]
     mo = ctx.run_model(exe, reqs)
     keep = [(c, m.split(" ")) for c, m in zip(cases, mo) if not m.startswith("ERR") and m[0] == "0"]
@@ -849,6 +902,273 @@ def char_stage(ctx, exe, d, cps):
                                % (dch, c, c in ciset, mfold[c] == mfold[dch]))
 
 
+# ------------------------------------------------------------------------------------------------
+# engine level (coq/C20/Nfa.v): the surface form of an SRE exactly as scm() prints it, in the model's xsre prefix syntax
+
+def body_elems(a):
+    """the elements body(a) prints after an operator"""
+    import zlib
+    if a[0] == 'seq' and len(a) > 2 and zlib.crc32(repr(a).encode()) % 2 == 0:
+        return list(a[1:])
+    return [a]
+
+
+def xspine(elems, cons="q", end="e"):
+    out = end
+    for x in reversed(elems):
+        out = "%s %s %s" % (cons, xproto(x), out)
+    return out
+
+
+def xchr(c):
+    # (w/nocase X) / (w/case X) printed where an SRE is expected go through ->rx's w/nocase case: a one-element sequence
+    if c[0] == 'i':
+        return "i q %s e" % xchr(c[1])
+    if c[0] == 'j':
+        return "j q %s e" % xchr(c[1])
+    return "c " + cs_proto(c)
+
+
+def xproto(r):
+    t = r[0]
+    if t == 'eps':
+        return "e"
+    if t == 'fail':
+        return "f"
+    if t == 'chr':
+        return xchr(r[1])
+    if t == 'str':
+        return ("s %d " % len(r[1]) + " ".join("%x" % c for c in r[1])).strip()
+    if t == 'seq':
+        return xspine(list(r[1:]))
+    if t == 'or':
+        sp = xspine(list(r[1:]), "l", "f")
+        return sp if alias(r, ["or", "or", "|\\||"]) == "or" or len(r) == 1 else "b " + sp
+    if t == 'star':
+        return "k %d %s" % (1 if r[1] else 0, xspine(body_elems(r[2])))
+    if t == 'plus':
+        return "p " + xspine(body_elems(r[1]))
+    if t == 'opt':
+        return "o %d %s" % (1 if r[1] else 0, xspine(body_elems(r[2])))
+    if t == 'rep':
+        _, form, g, m, n, a = r
+        if form == '=':
+            return "r 1 %d %d %s" % (m, m, xspine(body_elems(a)))
+        if form == '>=':
+            return "r 1 %d i %s" % (m, xspine(body_elems(a)))
+        return "r %d %d %d %s" % (1 if g else 0, m, n, xspine(body_elems(a)))
+    if t == 'sub':
+        return "u " + xspine(body_elems(r[1]))
+    if t == 'named':
+        return "m " + xspine(body_elems(r[1]))
+    if t == 'nocap':
+        return "x " + xspine(body_elems(r[1]))
+    if t == 'word':
+        return "w " + xspine(body_elems(r[1]))
+    if t == 'anc':
+        return "n " + r[1]
+    if t == 'nocase':
+        return "i " + xspine([r[1]])
+    if t == 'case':
+        return "j " + xspine([r[1]])
+    raise ValueError(r)
+
+
+def engine_alphabet(r, strs):
+    """characters on which the char-set states of the two graphs are compared: the subject characters, the SRE's literals
+    (ranges: end points and neighbours), their case relatives, and a few outsiders"""
+    base = set()
+    for s in strs:
+        base.update(s)
+
+    def cs(c):
+        if c[0] == 'c':
+            base.add(c[1])
+        elif c[0] == 'r':
+            base.update(x for x in (c[1] - 1, c[1], c[1] + 1, c[2] - 1, c[2], c[2] + 1) if x > 0)
+        elif c[0] in ('o', 'n', '-'):
+            cs(c[1]); cs(c[2])
+        elif c[0] in ('~', 'i', 'j'):
+            cs(c[1])
+    for n in walk(r):
+        if n[0] == 'chr':
+            cs(n[1])
+        elif n[0] == 'str':
+            base.update(n[1])
+    out = set()
+    for c in base:
+        out |= case_rel(c)
+    out |= {0x7a, 0x5a, 0x30, NL, 0x4e2d}
+    out = {c for c in out if not (0xd800 <= c <= 0xdfff)}
+    return sorted(out)[:64]
+
+
+def canon_graph(txt):
+    """'start nsave ngi | id:kind:match:rule:n1:n2 ...' -> (canonical description, raw id -> depth-first number)"""
+    head, _, body = txt.partition("|")
+    hf = head.split()
+    start, nsave, ngi = hf[0], hf[1], hf[2]
+    st = {}
+    for f in body.split():
+        i, kind, m, rule, n1, n2 = f.split(":")
+        st[i] = (kind, m, rule, n1, n2)
+    num, order, stack = {}, [], [start]
+    while stack:
+        q = stack.pop()
+        if q == "x" or q in num or q not in st:
+            continue
+        num[q] = len(order)
+        order.append(q)
+        stack.append(st[q][4])
+        stack.append(st[q][3])
+    rows = []
+    for q in order:
+        kind, m, rule, n1, n2 = st[q]
+        rows.append("%s:%s:%s:%s:%s" % (kind, m, rule, num.get(n1, "x"), num.get(n2, "x")))
+    ng = "_" if ngi == "_" else ",".join(sorted(ngi.split(","), key=int))
+    return "%s %s | %s" % (nsave, ng, " ".join(rows)), num
+
+
+def canon_trace(txt, num):
+    """'i;acc;q=vec q=vec | ... # result' -> list of (acc, sorted posse with canonical state numbers), result"""
+    body, _, res = txt.rpartition(" # ")
+    snaps = []
+    for sn in body.split(" | "):
+        f = sn.split(";")
+        posse = sorted((num.get(x.split("=")[0], "?" + x.split("=")[0]), x.split("=")[1]) for x in f[2].split()) if len(f) > 2 and f[2] else []
+        snaps.append((f[1], tuple(posse)))
+    return snaps, res.strip()
+
+
+def run_driver_lines(d, lines, jobs=4, timeout=900):
+    """feed driver cases '(<id> ...)' (ids 0..n-1 in order), return the raw answer per id (None = no answer)"""
+    res = [None] * len(lines)
+    os.makedirs(B.SCRATCH, exist_ok=True)
+
+    def run_range(lo, hi):
+        with tempfile.NamedTemporaryFile("w", suffix=".c20", dir=B.SCRATCH, delete=False) as fh:
+            fh.write("\n".join(lines[lo:hi]) + "\n")
+            path = fh.name
+        try:
+            try:
+                out = B.run_chibi(d, [DRIVER, path], timeout=timeout).stdout
+            except subprocess.TimeoutExpired as e:
+                out = e.stdout.decode() if isinstance(e.stdout, bytes) else (e.stdout or "")
+        finally:
+            os.unlink(path)
+        for line in out.split("\n"):
+            sp = line.find(" ")
+            if sp > 0 and line[:sp].isdigit() and lo <= int(line[:sp]) < hi:
+                res[int(line[:sp])] = line[sp + 1:]
+
+    n = len(lines)
+    step = max(1, (n + jobs - 1) // jobs)
+    with concurrent.futures.ThreadPoolExecutor(max_workers=jobs) as ex:
+        list(ex.map(lambda lo: run_range(lo, min(n, lo + step)), range(0, n, step)))
+    return res
+
+
+def engine_stage(ctx, exe, d, cases, per_sre, label="engine"):
+    """K-inner at the level of the ENGINE (coq/C20/Nfa.v): for every SRE the state graph (regexp / ->rx) that the running code
+    compiled, read through the module environment, against compile_top, state for state after renumbering both depth-first;
+    for per_sre subjects of every SRE the searchers (state, match vector) and the accept after every character of
+    regexp-advance! (seen through a wrapper around the internal posse-for-each) against loop_tr, for regexp-search and
+    regexp-matches.  A difference is judged by the SPEC: the SRE is run through compare() on its subjects and every short
+    string; answers that violate the language give the VIOLATION, equal answers make it engine drift (broken)."""
+    import time
+    t0 = time.time()
+    rng = ctx.rng
+    seen, uniq = set(), []
+    for r, strs in cases:
+        if r not in seen and strs:
+            seen.add(r)
+            uniq.append((r, strs))
+    glines, mreq, tlines, treq, tmeta = [], [], [], [], []
+    for k, (r, strs) in enumerate(uniq):
+        al = engine_alphabet(r, strs)
+        glines.append("(%d graph %s (%s))" % (k, scm(r), " ".join(str(c) for c in al)))
+        mreq.append("Y %s | %s" % (xproto(r), sfield(al)))
+        for s in (rng.sample(strs, per_sre) if len(strs) > per_sre else strs):
+            for search in (True, False):
+                tlines.append("(%d trace %s %s %s)" % (len(tlines), "#t" if search else "#f", scm(r), str_scm(s)))
+                treq.append("Z %d %s | %s" % (1 if search else 0, xproto(r), sfield(s)))
+                tmeta.append((k, s, search))
+    mg = ctx.run_model(exe, mreq)
+    ig = run_driver_lines(d, glines)
+    it = run_driver_lines(d, tlines)
+    bad = {}            # index of SRE -> first description of the difference
+    nums = {}
+    internal_missing = False
+    for k, ((r, strs), m, i) in enumerate(zip(uniq, mg, ig)):
+        ctx.count(1, key=("graph", r), nontrivial=depth(r) >= 1)
+        ctx.cov["traces_validated_against_impl"] += 1
+        if m.startswith("ERR"):
+            ctx.broken("model-driver:C20", "model driver rejected %s: %s" % (xproto(r), m))
+            continue
+        if i is None or i.startswith("ERRI"):
+            internal_missing = True
+            continue
+        if i.startswith("ERR") or i.startswith("Y !"):
+            bad.setdefault(k, "graph dump failed: %s" % i[:200])
+            continue
+        cm, nm = canon_graph(m)
+        ci_, ni = canon_graph(i[2:])
+        nums[k] = (nm, ni)
+        if cm != ci_:
+            bad.setdefault(k, "state graph differs: code %s ; model %s" % (ci_, cm))
+    if internal_missing:
+        ctx.broken("inner-correspondence:engine", "the state accessors / regexp-advance! / posse-for-each of (chibi regexp) could not be reached through the module environment")
+    # the code walks searchers1 in hash-table order and the merge of match vectors can depend on it: replay the observed order
+    # (posse->list conses while folding, so the walk is the reverse of the dumped list) in the model
+    for n, ((k, s, search), i) in enumerate(zip(tmeta, it)):
+        if k in nums and i is not None and i.startswith("Z ") and not i.startswith("Z !"):
+            nm, ni = nums[k]
+            inv = {v: q for q, v in nm.items()}
+            steps = []
+            for sn in i[2:].rpartition(" # ")[0].split(" | ")[:-1]:
+                f = sn.split(";")
+                ids = [x.split("=")[0] for x in f[2].split()] if len(f) > 2 and f[2] else []
+                steps.append(",".join(inv[ni[q]] for q in reversed(ids) if q in ni and ni[q] in inv) or "_")
+            if steps:
+                treq[n] += " | " + ";".join(steps)
+    mt = ctx.run_model(exe, treq)
+    for (k, s, search), m, i in zip(tmeta, mt, it):
+        if k not in nums:
+            continue
+        r = uniq[k][0]
+        ctx.count(1, key=("trace", r, s, search), nontrivial=depth(r) >= 1 and len(s) >= 1)
+        ctx.cov["traces_validated_against_impl"] += 1
+        if i is None or not i.startswith("Z ") or i.startswith("Z !"):
+            bad.setdefault(k, "trace of %s on %s failed: %s" % ("regexp-search" if search else "regexp-matches", str_scm(s), (i or "no answer")[:200]))
+            continue
+        if m == "!" or m.endswith("# !"):
+            ctx.broken("model:adv-fuel", "out of fuel on %s %s (contradicts adv_fuel_suffices)" % (xproto(r), sfield(s)))
+            continue
+        sm, rm = canon_trace(m, nums[k][0])
+        si, ri = canon_trace(i[2:], nums[k][1])
+        if sm != si or rm != ri:
+            step = next((n for n, (a, b) in enumerate(zip(sm, si)) if a != b), min(len(sm), len(si)))
+            bad.setdefault(k, "%s on %s: simulation differs at step %d: code %s ; model %s ; results %s / %s"
+                           % ("regexp-search" if search else "regexp-matches", str_scm(s), step,
+                              si[step] if step < len(si) else "(ended)", sm[step] if step < len(sm) else "(ended)", ri, rm))
+    # judge every differing SRE by the SPEC
+    for k in sorted(bad)[:40]:
+        r, strs = uniq[k]
+        letters = sorted({c for s in strs for c in s} | cps_of(r))[:3] or [A_]
+        probe = list(dict.fromkeys(list(strs) + all_strings(letters, 3)))
+        before = len(ctx.violations)
+        compare(ctx, exe, d, [(r, probe)], "engine-judge", sample=False)
+        if len(ctx.violations) == before:
+            ctx.broken("inner-correspondence:engine", "%s: %s -- no subject up to length 3 separates the answers from the SPEC (engine drift)" % (scm(r), bad[k][:1500]))
+        else:
+            for v in ctx.violations[before:]:
+                v.setdefault("engine_difference", bad[k][:1500])
+    if uniq and 0 in nums:
+        ctx.sample(dict(kind=label, sre=scm(uniq[-1][0]), model_graph=mg[-1][:300], impl_graph=(ig[-1] or "")[:300],
+                        model_trace=mt[-1][:300] if mt else None, impl_trace=(it[-1] or "")[:300] if it else None))
+    ctx.note("stage %s: %d state graphs, %d simulation traces, %d SREs differ, %.1fs" % (label, len(uniq), len(tmeta), len(bad), time.time() - t0))
+
+
 def load_corpus(fold=False):
     out = []
     if os.path.isdir(CORPUS):
@@ -883,17 +1203,19 @@ def run(ctx):
         return
     rng = ctx.rng
     used = set()
+    eng_cases = []
 
     import time
 
     def go(cases, label):
         t0 = time.time()
-        cases = [(tame(r), strs) for r, strs in cases]
+        cases = [(tame(r, False, subj_of(strs)), strs) for r, strs in cases]
         for r, strs in cases:
             used.update(cps_of(r))
             for s in strs:
                 used.update(s)
         compare(ctx, exe, d, cases, label)
+        eng_cases.extend(cases)
         ctx.note("stage %s: %d SREs, %d pairs, %.1fs" % (label, len(cases), sum(len(x[1]) for x in cases), time.time() - t0))
 
     # -------------------------------------------------------------- corpus first
@@ -919,6 +1241,12 @@ def run(ctx):
     fam = [lp(('sub', u(at))) for lp in loops for u in UNARY_FULL for at in (('chr', ('c', A_)), ('chr', ('r', A_, B_)), ('chr', ('any',)))]
     fam += [lp(('seq', ('sub', u(('chr', ('c', A_)))), ('opt', True, ('chr', ('c', B_))))) for lp in loops for u in UNARY_FULL]
     go([(r, rng.sample(strs3, 20 if T else 8) + rng.sample(strs4, 10 if T else 4)) for r in fam], "submatch-in-loop")
+    # operators around a submatch whose body has several elements, printed both as ($ a b) and as ($ (: a b)) (strip-submatches and the
+    # implicit sequences of ->rx see different lists): exhaustive family
+    at3 = [('chr', ('c', A_)), ('chr', ('c', B_)), ('chr', ('any',))]
+    fam2 = [u(('sub', ('seq', p, q))) for u in UNARY_FULL for p in at3 for q in at3[:2]]
+    fam2 += [u(('seq', ('sub', ('seq', p, q, p)), ('opt', True, q))) for u in UNARY_FULL[5:13] for p in at3[:2] for q in at3[:2]]
+    go([(r, rng.sample(strs3, 10 if T else 5) + rng.sample(strs4, 12 if T else 5)) for r in fam2], "multi-element-submatch")
     # depth-2 over the full operator set: seeded slice
     cases = []
     for _ in range(10000 if T else 300):
@@ -950,11 +1278,12 @@ def run(ctx):
     rcases = []
     for _ in range(3000 if T else 200):
         alpha = rng.choice([[A_, B_, NL], [A_, B_, UA, NL], rng.sample(ualpha, 4)])
-        r = tame(rand_sre(rng, alpha, rng.choice([1, 2, 3])))
+        r = rand_sre(rng, alpha, rng.choice([1, 2, 3]))
         xs = []
         for s in rand_strings(rng, alpha, 6, 9):
             a = rng.randrange(0, len(s) + 1)
             xs.append((s, a, rng.randrange(a, len(s) + 1)))
+        r = tame(r, False, subj_of(xs))
         rcases.append((r, xs))
         used.update(cps_of(r))
         for s, _, _ in xs:
@@ -964,7 +1293,7 @@ def run(ctx):
         for s in rng.sample(strs3, 6 if T else 4):
             a = rng.randrange(0, len(s) + 1)
             xs.append((s, a, rng.randrange(a, len(s) + 1)))
-        rcases.append((tame(r), xs))
+        rcases.append((tame(r, False, subj_of(xs)), xs))
     t0 = time.time()
     compare(ctx, exe, d, rcases, "start-end-arguments", ranged=True)
     ctx.note("stage start-end-arguments: %d SREs, %d calls, %.1fs" % (len(rcases), sum(len(x[1]) for x in rcases), time.time() - t0))
@@ -980,6 +1309,8 @@ def run(ctx):
         for s in strs:
             used.update(s)
     fold_stage(ctx, exe, d, fcases, "fold-family")
+    # -------------------------------------------------------------- engine level: state graphs and simulation steps
+    engine_stage(ctx, exe, d, eng_cases, 4 if T else 2)
     # -------------------------------------------------------------- function level: anchor predicates
     astrs = list(strs3) + rand_strings(rng, ualpha, 2000 if T else 200, 8) + rand_strings(rng, [A_, UNI["under"], UNI["digit"], 0x20, NL, 0x2d], 2000 if T else 200, 8)
     anchor_stage(ctx, exe, d, astrs)
